@@ -11,14 +11,18 @@ JCC2 = "yield,bwait,bpost,join+1,cancel+1,createY,createW,joinc,cancelc"
 JCCF = "yield,bwait,bpost,join+1,join+2,cancel+1,cancel+2,createY,createW,joinc,cancelc"
 CONDX = "yield,cadd,cw,cpost1,cpost2"                 # add() and wait() as separate steps (posts between them, add() during a wait)
 CONDE = "yield,cadd1,cadd2,cw,cpost1,cpost2"          # one-element and incrementally built condition sets
-MU4 = "yield,crit"                                    # crit = lock, yield, unlock: four routines contending with one-step scripts
+MU4 = "yield,critL"                                   # critL = { Mutex::Locker l(mu); yield; }: four routines contending with one-step scripts
+MU4C = "yield,crit"                                   # crit = lock, yield, unlock written out
+MUL = "yield,lock,unlock,critL"                       # Mutex::Locker sections mixed with bare lock / unlock
 MUJC = "yield,lock,unlock,join+1,cancel+1,cancel+0"   # routine-issued join / cancel (also of itself) around mutex waiters
 JCCS = "yield,createS,resumec,joinc,cancelc"          # children created suspended (run_now = false), resumed / joined / cancelled by their parent
 
 # (tag, alphabet, routines, max script length, max main-context actions per run, param, processes[, max total steps (0 = no bound)[, flags]])
 # main-context actions: resume(r) / cancel(r) / cleanup, and - when the alphabet has the consuming op (recv / acq / bwait / cwait|cw) - the
 # main context also produces: channel send / semaphore release / broadcast post / condition post(1|2)   (flag "nomain" turns that off).
-# The first mid-run cleanup is followed by a second session on the same Scheduler and primitives (flag "noreuse" turns that off).
+# The first mid-run cleanup is followed by a second session on the same Scheduler and primitives (flag "noreuse" turns that off); it comes
+# in two kinds: `cleanup` (second session created in the same loop callback) and `cleanup+turn` (the loop gets a turn first).
+# flag "create": the main context also creates one more routine mid-run; flag "stackdefault": routines get create()'s default 8 KiB stack.
 # param: initial semaphore count; for Condition 0 = Logic::kAll, 1 = Logic::kAny
 QUICK = [
     ("ch", CH, 3, 3, 1, 0, 2, 6), ("mu", MU, 3, 3, 1, 0, 2, 6), ("sem0", SEM, 3, 3, 1, 0, 2, 6), ("sem1", SEM, 3, 3, 1, 1, 2, 6), ("bc", BC, 3, 3, 1, 0, 2, 6),
@@ -32,6 +36,8 @@ QUICK = [
     ("condAll-split-3r", CONDX, 3, 2, 1, 0, 2, 4), ("condAll-elem", CONDE, 2, 3, 0, 0, 2), ("condAny-elem", CONDE, 2, 3, 0, 1, 2), ("condAll-elem-1act", CONDE, 2, 2, 1, 0, 1),
     ("ch-3acts", CH, 3, 1, 3, 0, 4), ("sem-3acts", SEM, 3, 1, 3, 0, 4), ("mu-4r", MU4, 4, 2, 1, 0, 2), ("mu-4r-2acts", MU4, 4, 1, 2, 0, 2),
     ("mujc", MUJC, 3, 2, 1, 0, 4, 4), ("jccs", JCCS, 2, 3, 1, 0, 2, 4),
+    ("mu-4r-crit", MU4C, 4, 1, 2, 0, 1), ("mu-locker", MUL, 3, 2, 1, 0, 2, 4),
+    ("ch-create", CH, 2, 2, 2, 0, 2, 3, "create"), ("mix-stackdefault", MIX, 2, 2, 1, 0, 1, 0, "stackdefault"),
 ]
 THOROUGH = [
     # scripts of <= 4 steps: every program without main-context action; one action for programs of <= 8 (7) steps in total
@@ -55,6 +61,9 @@ THOROUGH = [
     ("mu-4r-full", MU + ",crit", 4, 2, 1, 0, 16, 6),
     # routine-issued join / cancel / self-cancel around mutex waiters; children created suspended
     ("mujc", MUJC, 3, 2, 1, 0, 16), ("mujc-2acts", MUJC, 3, 2, 2, 0, 16, 4), ("jccs", JCCS, 2, 3, 1, 0, 8), ("jccs-3r", JCCS, 3, 2, 1, 0, 8, 4),
+    # Mutex::Locker sections, main-context create, default stack size
+    ("mu-locker", MUL, 3, 3, 1, 0, 16, 6), ("mu-4r-crit", MU4C, 4, 2, 1, 0, 4), ("ch-create", CH, 3, 2, 2, 0, 16, 4, "create"), ("sem-create", SEM, 2, 2, 2, 0, 8, 3, "create"),
+    ("mix-stackdefault", MIX, 2, 2, 1, 0, 4, 0, "stackdefault"), ("jcc2-stackdefault", JCC2, 2, 2, 1, 0, 4, 0, "stackdefault"),
 ]
 ASAN_INFO = [("asan-ch", CH, 3, 2, 1, 0, 2, 4), ("asan-mu", MU, 3, 3, 0, 0, 2, 6), ("asan-sem", SEM, 3, 2, 1, 0, 2, 4), ("asan-bc", BC, 3, 2, 1, 0, 2, 4),
              ("asan-cond", COND, 3, 2, 0, 0, 2), ("asan-jcc2", JCC2, 2, 2, 1, 0, 2, 3), ("asan-cond-split", CONDX, 2, 2, 1, 0, 1), ("asan-jccs", JCCS, 2, 2, 1, 0, 1)]
@@ -97,23 +106,33 @@ def main(tier, args):
         for e in info.errors[:3]:
             res.infos.append("asan-build harness error (ignored for the verdict): " + e[:300])
     res.infos.append("wall: build %.1fs, plain enumeration %.1fs, asan information run %.1fs" % (t_build, t_plain, time.time() - t0 - t_build - t_plain))
-    desc = "; ".join("%s{%s} nr=%d len<=%d acts<=%d param=%d" % c[:6] + (" total<=%d" % c[7] if len(c) > 7 and c[7] else "") for c in cfgs)
+    desc = "; ".join("%s{%s} nr=%d len<=%d acts<=%d param=%d" % c[:6] + (" total<=%d" % c[7] if len(c) > 7 and c[7] else "") + (" [%s]" % c[8] if len(c) > 8 else "") for c in cfgs)
     vf.finish(PID, tier, res, t0,
               rule="every program of nr (<=3, mu-4r families: 4) routines x every script of <= len ops over the family alphabet (families enumerated exhaustively: " + desc + ") "
-                   "x every main-context schedule (scheduler rounds until no routine is ready, with up to `acts` actions placed before every scheduler round and at idle: resume(r) / cancel(r) / cleanup and, "
-                   "in families whose alphabet has the consuming op, a channel send / semaphore release / broadcast post / condition post(1|2) issued by the main context; "
+                   "x every main-context schedule (scheduler rounds until no routine is ready, with up to `acts` actions placed before every scheduler round and at every idle point: resume(r) / cancel(r) / cleanup "
+                   "(before a round always; at idle while a routine is still alive) and, in families whose alphabet has the consuming op, a channel send / semaphore release / broadcast post / condition post(1|2) issued by the main context, "
+                   "in [create] families also create() of one more routine; "
                    "the first mid-run cleanup() is followed by a second session - the program's routines are created again on the same Scheduler and the same primitives, whose left-over values / units / holder the reference model carries over - "
-                   "and the schedule continues; final cleanup()), each run on a real epoll Loop (kForever; one loop per program, replaced whenever a run leaves a deferred call queued) + fresh Scheduler + Channel/Mutex/Semaphore/Broadcast/Condition; "
-                   "ops: yield, send, recv, lock, unlock, crit (= lock, yield, unlock), acq, rel, bwait, bpost, cwait (= add 1, add 2, wait), cadd/cadd1/cadd2 (add only), cw (wait only), cpost1/2, join/cancel of the next routines, cancel of itself, "
+                   "either in the same loop callback (`cleanup`) or after the loop has had a turn with nothing ready (`cleanup+turn`), and the schedule continues; "
+                   "every run ends by DESTROYING the Scheduler with whatever is still alive (its destructor must do what cleanup() does), before the primitives), "
+                   "each run on a fresh real epoll Loop (kForever) + fresh Scheduler + Channel/Mutex/Semaphore/Broadcast/Condition; "
+                   "ops: yield, send, recv, lock, unlock, crit (= lock, yield, unlock), critL (= a real Mutex::Locker around a yield), acq, rel, bwait, bpost, cwait (= add 1, add 2, wait), cadd/cadd1/cadd2 (add only), cw (wait only), cpost1/2, join/cancel of the next routines, cancel of itself, "
                    "create of a child (ready, or suspended with run_now=false), resume/join/cancel of the child; "
                    "oracle = reference model (FIFO exactly-once, one holder, acquisitions<=releases+initial) after every pass, lost-wake-up invariants whenever ready queue is empty "
                    "(free / non-empty / positive / posted / satisfied decided by the reference model; private state read with -fno-access-control only to find the ready queue and to cross-check), "
-                   "cancel/cleanup termination with failure, failure only after cancel/cleanup for recv/lock/acquire/broadcast-wait, join liveness and safety; "
+                   "judged at every idle point, also those reached by a main-context action that woke nobody; ready routines that no scheduler round picks up within 8 loop turns are a lost wake-up; "
+                   "cancel/cleanup/destruction termination with failure, failure only after cancel/cleanup for recv/lock/acquire/broadcast-wait, Condition::wait and join refuse only when the model says so "
+                   "(another waiter / empty set / target already joined or finished / caller cancelled), join liveness and safety; "
                    "states = distinct canonical idle states (summed per process), executions = program x schedule runs",
               assumptions=["verdict from the plain (uninstrumented) build; the ASan/UBSan build is run on a sub-space and reported as information only (ASan + swapcontext false-positive warning on this image)",
                            "the Scheduler is given a forwarding proxy of the real Loop that only inserts the main context's step in front of each deferred Scheduler::schedule call (runLoop(kOnce) would drain all deferred calls, i.e. run the scheduler to idle, and hide every intermediate point)",
                            "routine stacks are 64 KiB instead of the 8 KiB default (stack size is not part of the property)",
-                           "routines leave on any failed blocking call and release a mutex they hold on that path (as Mutex::Locker does)",
+                           "routines leave on any failed blocking call and release a mutex they hold on that path; Mutex::Locker itself is exercised by the critL op (a Locker has no return code, so the routine looks at isCanceled())",
+                           "the common build flags carry -DNDEBUG; for the coroutine code (scheduler.cpp and the header-only primitives, compiled as part of the harness file) it is undone, so TBOX_ASSERT is active there as in the project's debug build and a failing assert is a reported crash",
+                           "deferred calls that a destroyed Scheduler has left queued on the loop are dropped by the loop proxy (what happens to them is outside the property)",
+                           "once a Condition wait has ended by cancel / cleanup / a foreign resume (or a wait was accepted that the model expected to be refused), later refusals of wait() are not judged for the rest of the run; a join() is judged as refused only for the first joiner of a live target",
+                           "private members that only feed the state key / the ':waiter-...' suffix of a signature (waiter lists, Condition set and token, Routine state flags) are read through engine/probe.h; the oracle itself reads: the scheduler's ready queue (quiescence), "
+                           "its routine cabinet (vanished / still registered), Channel::queue_, Semaphore::count_, Mutex::hold_token_ (cross-checks of the reference model)",
                            "child routines made by a `create` step run a fixed one-step script (yield or broadcast-wait; a child created suspended runs [yield]); at most 2 children per session",
                            "a routine created with run_now=false has to start only after somebody resumed or cancelled it; once that happened it must have started (and, if cancelled, terminated) by the next idle point",
                            "Condition: values {1,2}, logic kAll and kAny, one waiter at a time (documented single-waiter use); the reference set is built by add() and reduced by post() whether or not a routine is waiting yet "
